@@ -18,7 +18,7 @@ ASSUMPTIONS = [
     "Content-Length (an unframed HTTP/1.0 response can only be delimited by closing)",
 ]
 REQKINDS = [("HTTP/1.1", None), ("HTTP/1.1", "keep-alive"), ("HTTP/1.1", "close"), ("HTTP/1.0", None), ("HTTP/1.0", "keep-alive"), ("HTTP/1.0", "close")]
-PIECES = [[b"ab"], [], [b"ab", b"c"], [b"", b"ab"], [b"ab", b"", b"c"], [b"c"]]
+PIECES = [[b"ab"], [], [b"ab", b"c"], [b"", b"ab"], [b"ab", b"", b"c"], [b"c"], [b"ab", b"cd"]]   # last: a declared length one short ends INSIDE the second piece
 CLMODES = ["exact", "absent", "short"]
 STATUSES = ["200 OK", "404 Not Found"]
 
@@ -28,9 +28,10 @@ def BOUND(tier):
 
 
 def RULE(tier):
-    return ("real http.Server over FakeNet; 1-3 requests on one connection (free choice), pipelined in one segment or sent one after "
-            "the other; per request: HTTP/1.0|1.1 x Connection absent|keep-alive|close, scripted WSGI app status 200|404, "
-            "Content-Length exact|absent|shorter than body, body pieces from 6 lists incl. empty pieces and a one-byte body (declared length 0 when cut short); server-side partial sends; "
+    return ("real http.Server over FakeNet; 1-3 requests on one connection (free choice), pipelined in one segment, sent one after "
+            "the other, or one after the other each in two segments with service passes in between; the app may call start_response "
+            "twice (the second call, with exc_info, replaces status and headers); per request: HTTP/1.0|1.1 x Connection absent|keep-alive|close, scripted WSGI app status 200|404, "
+            "Content-Length exact|absent|shorter than body, body pieces from 7 lists incl. empty pieces and a one-byte body (declared length 0 when cut short); server-side partial sends; "
             "all executions with <= %d deviations. Oracle: the received byte stream parses (independent stdlib parser) into exactly "
             "the expected responses in request order with the app's status, X-Idx header and body (cut at a declared length), each "
             "self-delimiting unless the connection then closes, and EOF arrives iff the last answered request was not persistent." % BOUND(tier))
@@ -80,13 +81,16 @@ def split_responses(stream, maxn):
 def harness(job, ch):
     nreq = job[1]
     reqs = []
+    restarts = []
     for i in range(nreq):
         kind = REQKINDS[ch.choose(len(REQKINDS), "req%d:kind" % i)]
         status = STATUSES[ch.choose(len(STATUSES), "req%d:status" % i)]
         cl = CLMODES[ch.choose(len(CLMODES), "req%d:cl" % i)]
         pieces = PIECES[ch.choose(len(PIECES), "req%d:pieces" % i)]
         reqs.append((kind, status, cl, pieces))
-    pipelined = ch.choose(2, "delivery") == 1
+        restarts.append(ch.choose(2, "req%d:start-twice" % i) == 1)
+    delivery = ch.choose(3, "delivery")      # 0 one after the other, 1 pipelined in one segment, 2 one after the other, each in two segments
+    pipelined = delivery == 1
 
     def app(environ, start_response):
         i = int(environ["PATH_INFO"][2:])
@@ -97,7 +101,16 @@ def harness(job, ch):
             headers.append(("Content-Length", str(len(body))))
         elif cl == "short":
             headers.append(("Content-Length", str(max(0, len(body) - 1))))
-        start_response(status, headers)
+        if restarts[i]:
+            # WSGI: start_response may be called again (with exc_info) as long as nothing has been sent; the second call replaces the first
+            start_response("500 Internal Server Error", [("X-Idx", "none"), ("Content-Length", "1")])
+            try:
+                raise RuntimeError("application changed its mind")
+            except RuntimeError:
+                import sys as _sys
+                start_response(status, headers, _sys.exc_info())
+        else:
+            start_response(status, headers)
         return iter(list(pieces))
 
     pol = tcpsys.XPolicy(ch, partial=True, faults=(), wants=False, connect_alts=False, only={"srv"})
@@ -150,7 +163,14 @@ def harness(job, ch):
                 if raw.rx_eof or raw.err_pending or raw.reset:
                     break
                 try:
-                    raw.send(msg(i))
+                    m = msg(i)
+                    if delivery == 2:      # the request line and the first header, a service pass, then the rest
+                        cut = m.index(b"\r\n", m.index(b"\r\n") + 2) + 2
+                        raw.send(m[:cut])
+                        svc(2)
+                        raw.send(m[cut:])
+                    else:
+                        raw.send(m)
                 except OSError:
                     break
                 svc(8)
@@ -177,7 +197,7 @@ def harness(job, ch):
             if not keeps_open(i):
                 break
         want_eof = not keeps_open(len(expected) - 1)
-        tag = "%s:%s" % ("pipelined" if pipelined else "sequential", "first" if len(expected) == 1 else "later")
+        tag = "%s:%s" % ("pipelined" if pipelined else "sequential" if delivery == 0 else "sequential-split", "first" if len(expected) == 1 else "later")
         if escaped:
             viol.append(("escape:%s:%s" % escaped, "server.service raised %s at %s" % (escaped[1], escaped[0])))
         else:
